@@ -145,6 +145,10 @@ def gen_plan(rng, tier, index):
     plan["linktest"] = rng.choice([30, 30, 3])
     plan["latency"] = rng.choice([0.0, 0.0005, 0.02])
     plan["second_fault"] = rng.choice([None, None, "fin", "disable"])
+    # application threads that send at the very instant of the fault (their sends fail or race the close sequence)
+    plan["app_sends"] = rng.choice([0, 0, 0, 1, 2, 3])
+    if plan["app_sends"]:
+        plan["linktest"] = 100000   # no unrelated timer may be needed to get the close sequence going again
     sched["seed"] = rng.getrandbits(48)
     plan["sched"] = sched
     return plan
@@ -170,12 +174,14 @@ def random_stream(rng):
 
 def sample_view(plan):
     return {k: plan[k] for k in ("kind", "active", "stream_id", "cut", "fault", "segments", "fault_steps",
-                                 "second_fault", "t5", "t6", "sched") if k in plan}
+                                 "second_fault", "app_sends", "t5", "t6", "sched") if k in plan}
 
 
 def shrink_candidates(plan):
     if plan.get("fault_steps"):
         yield dict(plan, fault_steps=0)
+    if plan.get("app_sends", 0) > 1:
+        yield dict(plan, app_sends=plan["app_sends"] - 1)
     if plan.get("second_fault"):
         yield dict(plan, second_fault=None)
     if plan.get("latency"):
@@ -207,7 +213,7 @@ def run(sim, plan):
     listener = hsmsenv.PeerListener(sim, configure=lambda p: None) if active else None
     ep = hsmsenv.Endpoint(sim, active, t5=plan["t5"], t6=plan["t6"])
     ep.proto._linktest_timeout = plan["linktest"]  # tuning knob (class default 30 s)
-    L = 2 * max(plan["t5"], plan["t6"]) + plan["linktest"] + 10
+    L = 2 * max(plan["t5"], plan["t6"]) + min(plan["linktest"], 30) + 10
     state = {"conn": 0}
 
     def establish(first):
@@ -271,6 +277,7 @@ def run(sim, plan):
     # from here on the peer sends exactly the planned prefix and then goes silent / closes
     peer.auto_linktest = False
     frames = build_stream(plan["stream"], active, select_system)
+    ep.old_frames = {(f.system, f.stream, f.function, f.body) for f in frames if f.stype == 0}
     stream = b"".join(f.encode() for f in frames)
     cut = min(plan["cut"], len(stream))
     prefix = stream[:cut]
@@ -305,6 +312,14 @@ def run(sim, plan):
     fault = plan["fault"]
     sim.fault("fault_" + fault)
     disabled = False
+    if plan.get("app_sends"):
+        import secsgem.secs.functions as sf
+
+        sim.probe("app_send_at_fault", plan["app_sends"])
+        for i in range(plan["app_sends"]):
+            ep.call_async(f"send{i}", lambda: ep.proto.send_stream_function(sf.SecsS01F01()))
+        if plan["fault_steps"] % 2:
+            sim.run_others(1 + plan["fault_steps"] % 7, max_dt=0.01)
     if fault == "fin":
         peer.close()
     elif fault == "rst":
@@ -399,10 +414,16 @@ def _verify_session(sim, plan, ep, peer, L):
     if not sim.wait_until(lambda: len(ep.received) > n_before, 5):
         sim.violation("C09.R3", "data message on the new connection was not delivered (stale bytes or wedged "
                       "receive path)", sig=_hang_sig(sim, "C09.R3", "not-delivered"))
-    got = ep.received[n_before]
-    if got[1:6] != (0xABCD01, 10, 3, False, body) or len(ep.received) != n_before + 1:
-        sim.violation("C09.R3", f"first message decoded on the new connection is not the first one sent: {got[1:5]}",
-                      sig="C09.R3|wrong-first-frame")
+    sim.wait_until(lambda: any(r[1] == 0xABCD01 for r in ep.received[n_before:]), 5)
+    new = ep.received[n_before:]
+    fresh = [r for r in new if r[1:6] == (0xABCD01, 10, 3, False, body)]
+    # messages that were completely received on the previous connection may legitimately be delivered late (the
+    # dispatcher was busy); anything else in front of the fresh message is debris of the old connection
+    old_ok = getattr(ep, "old_frames", set())
+    junk = [r[1:5] for r in new if r[1:6] != (0xABCD01, 10, 3, False, body) and (r[1], r[2], r[3], r[5]) not in old_ok]
+    if len(fresh) != 1 or junk:
+        sim.violation("C09.R3", f"on the new connection the first message sent was delivered {len(fresh)} times; other "
+                      f"deliveries that were never sent: {junk[:3]}", sig="C09.R3|wrong-first-frame")
 
 
 def _final_disable(sim, plan, ep, L):
